@@ -529,6 +529,21 @@ pub struct ExecResult {
     pub ops_skipped: usize,
     pub events_dispatched: usize,
     pub events_disabled: usize,
+    /// variant execution: an explicit-root event is emitted with the id of a span the `Registry`
+    /// has already closed as its explicit parent (`event!(parent: stale_id, ..)`) when there is one
+    pub stale_roots: bool,
+    /// ids of spans whose last handle was dropped
+    pub dead_ids: Vec<Id>,
+    /// how many events were emitted with a stale explicit parent
+    pub stale_used: usize,
+}
+
+/// An id among `dead` that the `Registry` under the current dispatcher no longer knows.
+fn closed_id(dead: &[Id]) -> Option<Id> {
+    tracing::dispatcher::get_default(|d| {
+        let registry = d.downcast_ref::<tracing_subscriber::Registry>()?;
+        dead.iter().find(|id| tracing_subscriber::registry::LookupSpan::span(registry, id).is_none()).cloned()
+    })
 }
 
 impl ExecResult {
@@ -616,7 +631,11 @@ pub fn exec_op(r: &mut ExecResult, sites: &[&'static DynSite], op: &Op) {
         }
         Op::Drop(k) => {
             let h = r.handles[*k].pop().expect("drop of a span without a live handle");
+            let id = h.id();
             drop(h);
+            if r.handles[*k].is_empty() {
+                r.dead_ids.extend(id);
+            }
         }
         Op::Follows(k, FollowTarget::Live(j)) => {
             handle(r, *k).follows_from(handle(r, *j).id());
@@ -628,12 +647,15 @@ pub fn exec_op(r: &mut ExecResult, sites: &[&'static DynSite], op: &Op) {
             let site = sites[*cs];
             if site.is_enabled() {
                 let meta = site.metadata();
+                let stale = if r.stale_roots && matches!(parent, ParentKind::Root) { closed_id(&r.dead_ids) } else { None };
                 with_value_set(site, vals, |vs| match parent {
                     ParentKind::Ctx => Event::dispatch(meta, vs),
-                    // `event!(parent: None, ..)`: explicit root
-                    ParentKind::Root => Event::child_of(None::<Id>, meta, vs),
+                    // `event!(parent: None, ..)`: explicit root; in the variant execution, an explicit
+                    // parent that no longer exists
+                    ParentKind::Root => Event::child_of(stale.clone(), meta, vs),
                     ParentKind::Explicit(k) => Event::child_of(handle(r, *k).id(), meta, vs),
                 });
+                r.stale_used += usize::from(stale.is_some());
                 r.events_dispatched += 1;
             } else {
                 r.events_disabled += 1;
